@@ -205,7 +205,20 @@ func (t *Tables) Scan(start int, text string) (size, action int) {
 			return start, actionStart - state
 		}
 	}
-	state = t.Dfa[state*t.NumSymbols] // end-of-input transition
+	// End of input. The end-of-input symbol repeats, and {eoi} in a rule consumes it, so its
+	// transitions are followed (checkpoints included) until an action is reached.
+	for n := len(t.Dfa) / t.NumSymbols; state >= 0 && n > 0; n-- {
+		state = t.Dfa[state*t.NumSymbols]
+		if state < 0 && state > actionStart {
+			bt := t.Backtrack[-1-state]
+			action, state = bt.Action, bt.NextState
+			size = len(text)
+		}
+	}
+	if state >= 0 {
+		// Only a cycle of end-of-input transitions gets here: nothing can be accepted any more.
+		state = actionStart
+	}
 	if actionStart == state && size > 0 {
 		// Backtrack.
 		return
